@@ -55,6 +55,9 @@ M = [
     ("C13-insufficient-boundary", "C13", "pycoin/coins/tx_utils.py", "if remaining_coins < zero_count:", "if remaining_coins <= zero_count:"),
     ("C13-validate-ignores-script", "C13", "pycoin/coins/bitcoin/Tx.py", "if tx_out1.script != tx_out2.script:", "if False:"),
     ("C13-validate-amount-greater-only", "C13", "pycoin/coins/bitcoin/Tx.py", "if tx_out1.coin_value != tx_out2.coin_value:", "if tx_out1.coin_value < tx_out2.coin_value:"),
+    ("C13-validate-trusts-source-id", "C13", "pycoin/coins/bitcoin/Tx.py", "            if the_tx.hash() != h:\n                raise KeyError(", "            if False:\n                raise KeyError("),
+    ("C13-ignore-missing-invents-output", "C13", "pycoin/coins/bitcoin/Tx.py", "            elif ignore_missing:\n                unspents.append(None)", "            elif ignore_missing:\n                unspents.append(self.TxOut(0, b\"\"))"),
+    ("C05-oneshot-reports-unsigned", "C05", "pycoin/coins/tx_utils.py", "        if not tx.is_solution_ok(idx):\n            raise SecretExponentMissing(", "        if idx > 0 and not tx.is_solution_ok(idx):\n            raise SecretExponentMissing("),
     ("C13-fee-ignored-in-allocation", "C13", "pycoin/coins/tx_utils.py", "coins_allocated = sum(tx_out.coin_value for tx_out in tx.txs_out) + fee", "coins_allocated = sum(tx_out.coin_value for tx_out in tx.txs_out)"),
     ("C14-odd-level-duplicates-first", "C14", "pycoin/merkle.py", "hashes.append(hashes[-1])", "hashes.append(hashes[0])"),
     ("C14-extra-hashes-check-removed", "C14", "pycoin/message/make_parser_and_packer.py", "    if len(hashes) > 0:\n        raise ValueError(\"extra hashes", "    if False:\n        raise ValueError(\"extra hashes"),
